@@ -795,7 +795,14 @@ private:
       ? std::min(_config.connectTimeout, std::chrono::milliseconds(200))
       : _config.connectTimeout;
 
-    auto connectResult = _transport->connectSync(resolvedHost, parsedUrl.port, tlsMode, timeout);
+    // The engine is handed an address we resolved ourselves; tell it which host name
+    // that address stands for, so that the name is sent as SNI and — with verifyPeer —
+    // the server certificate must be issued for the host in the URL, not merely chain
+    // to a trusted CA.
+    const bool httpsToName = tlsMode == TlsMode::Client && !isIPAddress(parsedUrl.host);
+    auto connectResult = httpsToName
+      ? _transport->connectSync(resolvedHost, parsedUrl.port, tlsMode, timeout, parsedUrl.host)
+      : _transport->connectSync(resolvedHost, parsedUrl.port, tlsMode, timeout);
     if (connectResult.isErr())
     {
       throw std::runtime_error("Connection failed to " + hostPort + ": " +
